@@ -14,6 +14,9 @@ import random
 from harness import core
 
 SPECIES = ['s1', 's2', 's3', 's4', 's5', 's6']
+# elements of the species (s1..s3 as ElemOf in MC_Phases.tla); 'zz' is only ever put into a COPY
+ELEMS = {'s1': ['H'], 's2': ['H', 'N'], 's3': ['O'], 's4': ['C'], 's5': ['N', 'O'], 's6': ['C', 'H'],
+         'zz': ['Zz']}
 
 
 def isolated(fn, case):
@@ -51,7 +54,7 @@ def isolated(fn, case):
 def _mk_species(name):
     import numpy as np
     from pmutt.empirical.nasa import Nasa
-    return Nasa(name=name, elements={'H': 1}, phase=None, T_low=300., T_mid=600., T_high=1000.,
+    return Nasa(name=name, elements={el: 1 for el in ELEMS[name]}, phase=None, T_low=300., T_mid=600., T_high=1000.,
                 a_low=np.arange(7.), a_high=np.arange(7.))
 
 
@@ -69,6 +72,27 @@ def _phase_class(kind, flavour):
     raise core.MachineryError('unknown phase kind %r' % (kind,))
 
 
+def _ctor_kw(kind):
+    if kind == 'iface':
+        return {'site_density': 1.5e-9, 'phases': ['gas']}
+    if kind == 'solid':
+        return {'density': 12.4}
+    return {}
+
+
+def _written(obj, api):
+    """(elements, species names) as the phase states them through one of its writers"""
+    import ast
+    if api == 'elements':
+        return sorted(obj.elements), list(obj.species_names)
+    if api == 'yaml':
+        d = obj.to_omkm_yaml()
+        return sorted(d['elements']), list(d['species'])
+    tree = ast.parse(obj.to_cti())
+    kw = {k.arg: k.value.value for k in tree.body[0].value.keywords if isinstance(k.value, ast.Constant)}
+    return sorted(kw['elements'].split()), kw['species'].split()
+
+
 def _run(case):
     objs = {}                       # pid -> real phase object
     sp = {}                         # name -> real species object (one object per name)
@@ -81,6 +105,10 @@ def _run(case):
     def names():
         return [[pid, list(objs[pid].species_names)] for pid in sorted(objs)]
 
+    def elems():
+        return [[pid, sorted(objs[pid].elements)] for pid in sorted(objs)]
+    watch = case.get('watch', True)       # read .elements of every live phase after every call
+
     def owners(nms):
         out = []
         for n in nms:
@@ -92,25 +120,25 @@ def _run(case):
             out.append([n, who])
         return out
 
-    events = [{'ev': 'begin'}]
+    events = [{'ev': 'begin', 'elem_of': [[n, ELEMS[n]] for n in sorted(ELEMS)]}]
     mism = []
     flavour = case.get('flavour', 0)
     for k, op in enumerate(case['ops']):
         act, p = op['act'], op['p']
-        ev = {'ev': act, 'p': p, 'raised': False, 'own': [], 'names': []}
+        ev = {'ev': act, 'p': p, 'raised': False, 'own': [], 'names': [], 'elems': []}
         try:
             if act == 'new':
                 cls = _phase_class(case['objs'][p], flavour + k)
                 L = op['L']
                 if L == ['default']:
                     ev['given'], ev['L'] = 'default', []
-                    objs[p] = cls(name=p)
+                    objs[p] = cls(name=p, **_ctor_kw(case['objs'][p]))
                 elif L is None:
                     ev['given'], ev['L'] = 'none', []
-                    objs[p] = cls(name=p, species=None)
+                    objs[p] = cls(name=p, species=None, **_ctor_kw(case['objs'][p]))
                 else:
                     ev['given'], ev['L'] = 'list', list(L)
-                    objs[p] = cls(name=p, species=[S(n) for n in L])
+                    objs[p] = cls(name=p, species=[S(n) for n in L], **_ctor_kw(case['objs'][p]))
                     ev['own'] = owners(L)
             elif act == 'append':
                 ev['s'] = op['s']
@@ -133,6 +161,11 @@ def _run(case):
                 ev['ret'] = [x.name for x in ret]
                 ret.append(S('zz'))                       # edit the RETURNED list only
                 ev['after'] = list(objs[p].species_names)
+            elif act == 'observe':
+                apis = ['elements', 'cti'] + (['yaml'] if hasattr(objs[p], 'to_omkm_yaml') else [])
+                api = apis[(flavour + k) % len(apis)]
+                ev['api'] = api
+                ev['wel'], ev['wsp'] = _written(objs[p], api)
             elif act == 'assign':
                 ev['L'] = list(op['L'])
                 objs[p].species = [S(n) for n in op['L']]
@@ -147,11 +180,20 @@ def _run(case):
             mism.append({'step': k, 'op': _brief(op), 'raised': '%s: %s' % (type(ex).__name__, ex)})
             break
         ev['names'] = names()
+        ev['elems'] = elems() if (watch or k == len(case['ops']) - 1) else []
         events.append(ev)
         if 'mem' in op:                                   # S->C: the state TLC computed
             exp = [[pid, list(op['mem'][pid])] for pid in sorted(op['alive'])]
             if ev['names'] != exp:
                 mism.append({'step': k, 'op': _brief(op), 'expected': exp, 'got': ev['names']})
+            if 'el' in op and ev['elems']:
+                expel = [[pid, sorted(op['el'][pid])] for pid in sorted(op['alive'])]
+                if ev['elems'] != expel:
+                    mism.append({'step': k, 'op': _brief(op), 'expected_elements': expel, 'got': ev['elems']})
+            if act == 'observe' and (ev['wsp'] != list(op['ret']) or ev['wel'] != sorted(op['el'][p])):
+                mism.append({'step': k, 'op': _brief(op), 'api': ev['api'],
+                             'expected_written': [sorted(op['el'][p]), list(op['ret'])],
+                             'got': [ev['wel'], ev['wsp']]})
             if act == 'copy' and ev['ret'] != list(op['ret']):
                 mism.append({'step': k, 'op': _brief(op), 'expected_ret': op['ret'], 'got': ev['ret']})
     return {'events': events, 'mism': mism}
@@ -183,9 +225,11 @@ def from_behaviour(h, cid, src):
     for r in h:
         objs[r['p']] = r['kind']
         ops.append({'act': r['act'], 'p': r['p'], 's': r['s'], 'L': r['L'], 'i': r['i'],
-                    'ret': r['ret'], 'alive': sorted(r['alive']), 'mem': r['mem']})
+                    'ret': r['ret'], 'alive': sorted(r['alive']), 'mem': r['mem'],
+                    'el': {k: sorted(v) for k, v in r['el'].items()}})
+    fl = sum(len(o['L']) + o['i'] for o in ops) + len(ops)
     return {'part': 'phases', 'cid': cid, 'src': src, 'objs': objs, 'ops': ops,
-            'flavour': sum(len(o['L']) + o['i'] for o in ops)}
+            'flavour': fl, 'watch': fl % 4 != 3}
 
 
 def random_case(rnd, cid):
@@ -237,14 +281,16 @@ def random_case(rnd, cid):
         elif r < 0.8:
             cur[p] = []
             ops.append({'act': 'clear', 'p': p, 's': '-', 'L': [], 'i': 0})
-        elif r < 0.9:
+        elif r < 0.84:
             ops.append({'act': 'copy', 'p': p, 's': '-', 'L': [], 'i': 0})
+        elif r < 0.93:
+            ops.append({'act': 'observe', 'p': p, 's': '-', 'L': [], 'i': 0})
         else:
             L = some_list()
             cur[p] = list(L)
             ops.append({'act': 'assign', 'p': p, 's': '-', 'L': L, 'i': 0})
     return {'part': 'phases', 'cid': cid, 'src': 'random', 'objs': kinds, 'ops': ops,
-            'flavour': rnd.randrange(4)}
+            'flavour': rnd.randrange(4), 'watch': rnd.random() < 0.7}
 
 
 def tags(case):
@@ -305,9 +351,15 @@ def models(ctx):
     def good():
         ctx.model('MC_Phases', 'MC_Phases', workers=8)
 
+    def stale():
+        bad = ctx.model('MC_Phases', 'MC_Phases_stalecache', workers=2, expect_ok=False)
+        if bad.ok or bad.violated is None:
+            raise core.MachineryError('the stale-cache variant of Phases.tla should be rejected')
+        ctx.notes.append('Phases.tla rejects elements cached across pop/remove: %s violated' % bad.violated)
+
     def shared():
         bad = ctx.model('MC_Phases', 'MC_Phases_shared', workers=2, expect_ok=False)
         if bad.ok or bad.violated is None:
             raise core.MachineryError('the shared-default variant of Phases.tla should be rejected')
         ctx.notes.append('Phases.tla rejects the shared default list variant: %s violated' % bad.violated)
-    return [good, shared]
+    return [good, shared, stale]
